@@ -234,3 +234,120 @@ func VerifC35_frames() {
 	}
 	vrt.Cover("C35/sequence-done")
 }
+
+// mkRequestHeadersC35 is a complete POST request that declares a body of cl octets ("" = no content-length),
+// without END_STREAM.
+func mkRequestHeadersC35(id uint32, cl string) *MetaHeadersFrame {
+	hf := &HeadersFrame{FrameHeader: FrameHeader{valid: true, Type: FrameHeaders, Flags: FlagHeadersEndHeaders, StreamID: id}}
+	fields := []hpack.HeaderField{{Name: ":method", Value: "POST"}, {Name: ":scheme", Value: "https"}, {Name: ":path", Value: "/"}, {Name: "host", Value: "a"}}
+	if cl != "" {
+		fields = append(fields, hpack.HeaderField{Name: "content-length", Value: cl})
+	}
+	return &MetaHeadersFrame{HeadersFrame: hf, Fields: fields}
+}
+
+var declaredLengthsC35 = []string{"0", "1", "2", ""}
+
+// VerifC35_declaredLength: the stream rules for requests that declare their body length. A request
+// HEADERS frame with content-length 0 / 1 / 2 / none leaves the stream open; the second client frame is a
+// DATA frame (0..1 octets, END_STREAM or not - the empty END_STREAM DATA frame is how clients finish such
+// a request) or trailers; the third is another HEADERS or DATA frame on the same stream. Oracle: no Go
+// panic on any of them; a frame that ends the request leaves the stream half-closed (remote) or - if the
+// server treats a content-length mismatch as malformed (RFC 7540 8.1.2.6) - reset; DATA or HEADERS on a
+// stream the client has already ended is answered with an error (5.1).
+func VerifC35_declaredLength() {
+	sc, _ := newConnH2()
+	sc.srv.MaxUploadBufferPerStream = 8
+	sc.handler = fakeHandlerC35{}
+	sc.sawFirstSettings = true
+	var sent []frameWriteMsg
+	drain := func() {
+		for i := 0; i < 8; i++ {
+			select {
+			case wm := <-sc.writeFrameCh:
+				sent = append(sent, wm)
+				sc.wroteFrame(frameWriteResult{wm: wm})
+			default:
+				return
+			}
+		}
+	}
+	dead := func(alive bool) bool { return !alive || (sc.inGoAway && sc.goAwayCode != ErrCodeNo) }
+	const id = 1
+
+	cli := vrt.Choose("declared", len(declaredLengthsC35))
+	decl := int64(-1)
+	if declaredLengthsC35[cli] != "" {
+		decl = int64(cli)
+	}
+	alive := sc.processFrameFromReader(readFrameResult{f: mkRequestHeadersC35(id, declaredLengthsC35[cli]), readMore: func() {}})
+	drain()
+	st := sc.streams[id]
+	vrt.Assert(alive && !sc.inGoAway && st != nil && rstQueuedC35(sc, id, sent) == 0, "C35/valid-frame-is-accepted")
+	if st == nil {
+		return
+	}
+	vrt.Assert(st.state == stateOpen, "C35/stream-state-follows-rfc7540")
+
+	// second frame
+	ended := false // the client ended the request
+	var f Frame
+	received := int64(0)
+	if vrt.Choose("second", 2) == 0 {
+		es := vrt.Choose("endStream", 2) == 1
+		d := vrt.Range("dataLen", 0, 1)
+		var flags Flags
+		if es {
+			flags = FlagDataEndStream
+		}
+		f = &DataFrame{FrameHeader: FrameHeader{valid: true, Type: FrameData, Flags: flags, Length: uint32(d), StreamID: id}, data: vrt.Bytes("data", d)}
+		received = int64(d)
+		ended = es
+	} else {
+		f = mkHeadersC35(id, true, hdrTrailersC35)
+		ended = true
+	}
+	overrun := decl != -1 && received > decl
+	alive = sc.processFrameFromReader(readFrameResult{f: f, readMore: func() {}})
+	drain()
+	if dead(alive) {
+		return // a connection error is never an internal failure; which frames deserve one is VerifC35_frames' business
+	}
+	rst := rstQueuedC35(sc, id, sent)
+	st = sc.streams[id]
+	if overrun {
+		vrt.Assert(rst > 0 && st == nil, "C35/forbidden-frame-is-answered-with-an-error")
+		return
+	}
+	if decl == -1 || !ended || received == decl {
+		vrt.Assert(rst == 0 && st != nil, "C35/valid-frame-is-accepted")
+	}
+	if st == nil {
+		vrt.Assert(rst > 0, "C35/stream-leaves-only-with-rst-stream")
+		return
+	}
+	if !ended {
+		vrt.Assert(st.state == stateOpen, "C35/stream-state-follows-rfc7540")
+		return
+	}
+	// ended: whether the server really regards the stream as half-closed (remote) is observed through
+	// its reaction to the next frame, not through the private state field
+
+	// third frame: the client goes on after its END_STREAM
+	if vrt.Choose("third", 2) == 0 {
+		f = &DataFrame{FrameHeader: FrameHeader{valid: true, Type: FrameData, Flags: FlagDataEndStream, StreamID: id}}
+	} else {
+		f = mkHeadersC35(id, true, hdrTrailersC35)
+	}
+	handlers := vrt.GoCount()
+	alive = sc.processFrameFromReader(readFrameResult{f: f, readMore: func() {}})
+	drain()
+	vrt.Assert(dead(alive) || rstQueuedC35(sc, id, sent) > rst, "C35/forbidden-frame-is-answered-with-an-error")
+	if vrt.Symbolic() {
+		vrt.Assert(vrt.GoCount() == handlers, "C35/forbidden-frame-starts-no-handler")
+	}
+	if st := sc.streams[id]; st != nil && alive && !sc.inGoAway {
+		vrt.Assert(false, "C35/stream-of-forbidden-frame-stays-usable")
+	}
+	vrt.Cover("C35/declared-length-sequence-done")
+}
